@@ -23,10 +23,12 @@ import (
 func decodeBody(enc string, body []byte) ([]byte, bool) {
 	if verif.Symbolic() {
 		tag := map[string]string{"gzip": "GZ:", "deflate": "ZL:", "br": "BR:", "zstd": "ZS:"}[enc]
-		if tag == "" || len(body) < 3 || string(body[:3]) != tag {
+		// modelled coders: "<tag>:" + payload + ";" (the trailer Close writes; a stream that was
+		// only flushed has none and does not decode)
+		if tag == "" || len(body) < 4 || string(body[:3]) != tag || body[len(body)-1] != ';' {
 			return nil, false
 		}
-		return body[3:], true
+		return body[3 : len(body)-1], true
 	}
 	var r io.Reader
 	var err error
